@@ -368,7 +368,8 @@ class HGen:
             if r.random() < 0.25:
                 body = r.choice([b"{", b"[]", b'{"topic":"a"}', b"", b'{"topic":1,"context_id":"x"}'])
                 return dict(kind=k, toks=["import", "bad"], raw=render("POST", "/import", body=body))
-            i = r.randrange(1, 2 ** 90)
+            # a fresh id, or (3 in 10) the id of a frame that is already stored: the import replaces it, whatever it held
+            i = r.choice(self.ids) if self.ids and r.random() < 0.3 else r.randrange(1, 2 ** 90)
             c = r.choice(self.ctxs + [r.randrange(1, 2 ** 64)])
             topic = r.choice(TOPICS + IMPORT_ONLY_TOPICS + ["a\x00b", "xs.context"])
             if topic == "xs.context" and r.random() < 0.6:
